@@ -398,9 +398,13 @@ fn run(case: &Case, out: &mut Out) {
             }
             "inc" => {
                 let h = a[0].n() as usize;
+                let normal = st.handles[h].borrow().status == BackendStatus::Normal;
                 let r = st.handles[h].borrow_mut().inc_connections();
                 if r.is_some() {
                     st.shadow[h] += 1;
+                    if !normal {
+                        out.viol("inc-on-retiring", &format!("h{h} is being removed (not Normal) and took a new connection"));
+                    }
                 }
                 out.obs(&[r.map(|n| tn(n)).unwrap_or(ts("none"))]);
                 st.check_counts(out, "inc", Some(h));
